@@ -236,6 +236,36 @@ pub fn run(rep: &'static Report) {
             }
         });
         rep.extra("cli_extract_pub_pairs", json!(jobs.len()));
+        let base_locked = r::b64(&r::lock_key(&sk, b"startpw", &salts[0]));
+        w.par_iter().for_each(|(wn, newpw)| {
+            rep.eval(1);
+            rep.nontrivial(format!("cli-change-{}", wn).as_bytes());
+            let attempt = || -> Result<(), String> {
+                let sc = Scratch::new();
+                let out = proc::run(&Cmd::new(&["key", "change-pass", &base_locked, "--env-pass"]).env("KESTREL_PASSWORD", "startpw").env("KESTREL_NEW_PASSWORD", newpw), &sc.0);
+                out.well_behaved()?;
+                if !out.ok() {
+                    return Err(format!("change-pass to '{}' failed: {}", wn, out.summary()));
+                }
+                let txt = String::from_utf8_lossy(&out.stdout).to_string();
+                let locked = txt.lines().find_map(|l| l.trim().strip_prefix("PrivateKey = ")).ok_or("no PrivateKey line")?.trim().to_string();
+                let blob = r::b64_decode(&locked).ok_or("not base64")?;
+                match r::unlock_key(&blob, newpw.as_bytes()) {
+                    Some(k) if k == sk => {}
+                    Some(_) => return Err(format!("after change-pass to '{}' the string unlocks to a different key", wn)),
+                    None => return Err(format!("after `key change-pass` with the new password '{}' the locked string does not unlock with that password (documented format)", wn)),
+                }
+                if *newpw != "startpw" && r::unlock_key(&blob, b"startpw").is_some() {
+                    return Err(format!("after change-pass to '{}' the old password still unlocks the key", wn));
+                }
+                Ok(())
+            };
+            if attempt().is_err() {
+                if let Err(e) = attempt() {
+                    rep.violation("cli/change-pass", json!({"kind":"cli-change","wn":wn}), e);
+                }
+            }
+        });
         rep.sample(json!({"kind":"cli-extract","locked_under":"a\\n","KESTREL_PASSWORD":"a","expect":"exit 1"}));
     }
     rep.set_exhaustive(true);
@@ -249,6 +279,10 @@ pub fn replay(rep: &'static Report, case: &Value) {
         "other-pw" => other_pw_case(rep, &a32("sk"), case["wn"].as_str().unwrap(), &g("w"), case["w2n"].as_str().unwrap(), &g("w2"), case["locked"].as_str().unwrap()),
         "flip" => flip_case(rep, &a32("sk"), &g("pw"), &g("blob"), case["bit"].as_u64().unwrap() as usize),
         "string" => string_case(rep, case["s"].as_str().unwrap(), &g("pw"), case["orig"].as_str().unwrap(), &a32("sk")),
+        "cli-change" => {
+            println!("  re-running C15");
+            run(rep);
+        }
         "cli-extract" => {
             let sc = crate::proc::Scratch::new();
             let out = crate::proc::run(&crate::proc::Cmd::new(&["key", "extract-pub", case["locked"].as_str().unwrap(), "--env-pass"]).env("KESTREL_PASSWORD", case["w2"].as_str().unwrap()), &sc.0);
